@@ -53,6 +53,7 @@ Definition reasons (c : case15) : list N :=
   | None => [] end.
 
 Definition mem (x : N) (l : list N) : bool := existsb (N.eqb x) l.
+Definition doc_shared (c : case15) : bool := (c_kind c =? 2) || (c_kind c =? 5).
 
 Definition ok_C15 (c : case15) (o : obs15) : bool :=
   let rs := reasons c in
@@ -68,8 +69,11 @@ Definition ok_C15 (c : case15) (o : obs15) : bool :=
         match c_file c with
         | Some (_, start) => o_hasfile o && (o_start o =? start) && o_samefd o
         | None => negb (o_hasfile o) end &&
-        (* shared (MAP_SHARED = 1) file-backed (not MAP_ANONYMOUS = 32) mapping: coherent with the file whenever it was examined *)
-        (if c_cohere c && o_hasfile o && hasbit (o_flags o) 1 && negb (hasbit (o_flags o) 32) && negb (o_coh1 o =? 2)
+        (* a file-backed (not MAP_ANONYMOUS = 32) mapping that is shared - requested with MAP_SHARED (= 1), or
+           made by from_file / from_range(file), documented as "a shared file mapping" - is coherent with
+           the file in both directions, whenever that was examined *)
+        (if c_cohere c && o_hasfile o && (doc_shared c || hasbit (o_flags o) 1) && negb (hasbit (o_flags o) 32) &&
+            negb (o_coh1 o =? 2)
          then (o_coh1 o =? 1) && (o_coh2 o =? 1) else true)
   end.
 
